@@ -35,7 +35,6 @@ pub use contact::{
 
 // Four-word address encoding (via four-word-networking crate)
 pub use four_word_networking as fourwords;
-use four_word_networking::FourWordAdaptiveEncoder;
 
 use crate::error::BootstrapError;
 use crate::{P2PError, Result};
@@ -94,34 +93,30 @@ impl WordEncoder {
     }
 
     pub fn decode_to_socket_addr(&self, words: &FourWordAddress) -> Result<std::net::SocketAddr> {
-        let encoder = FourWordAdaptiveEncoder::new().map_err(|e| {
-            P2PError::Bootstrap(BootstrapError::InvalidData(
-                format!("Encoder init failed: {e}").into(),
-            ))
-        })?;
-        let normalized = words.0.replace(' ', "-");
-        let decoded = encoder.decode(&normalized).map_err(|e| {
-            P2PError::Bootstrap(BootstrapError::InvalidData(
-                format!("Failed to decode four-word address: {e}").into(),
-            ))
-        })?;
-        decoded.parse::<std::net::SocketAddr>().map_err(|_| {
-            P2PError::Bootstrap(BootstrapError::InvalidData(
-                "Decoded address missing port".to_string().into(),
-            ))
-        })
+        // One decoder for the whole library: `NetworkAddress` accepts the hyphenated
+        // form this encoder produces, knows the codec's "no port" marker and turns a
+        // decoder panic into an error.
+        let normalized = words.0.replace(['.', ' '], "-");
+        crate::address::NetworkAddress::from_four_words(&normalized)
+            .map(|addr| addr.socket_addr())
+            .map_err(|e| {
+                P2PError::Bootstrap(BootstrapError::InvalidData(
+                    format!("Failed to decode four-word address: {e}").into(),
+                ))
+            })
     }
 
     pub fn encode_socket_addr(&self, addr: &std::net::SocketAddr) -> Result<FourWordAddress> {
-        let encoder = FourWordAdaptiveEncoder::new().map_err(|e| {
-            P2PError::Bootstrap(BootstrapError::InvalidData(
-                format!("Encoder init failed: {e}").into(),
-            ))
-        })?;
-        let encoded = encoder
-            .encode(&addr.to_string())
-            .map_err(|e| P2PError::Bootstrap(BootstrapError::InvalidData(format!("{e}").into())))?;
-        Ok(FourWordAddress(encoded.replace(' ', "-")))
+        // Only a word form that decodes back to exactly this address is handed out
+        // (the codec is lossy for some IPv6 addresses).
+        crate::address::NetworkAddress::new(*addr)
+            .four_words()
+            .map(|words| FourWordAddress(words.to_string()))
+            .ok_or_else(|| {
+                P2PError::Bootstrap(BootstrapError::InvalidData(
+                    format!("No lossless four-word form for {addr}").into(),
+                ))
+            })
     }
 }
 
